@@ -147,7 +147,8 @@ def exec_job(job):
                 lctx = bld.create()
                 types = pydsdl.read_namespace(str(a["root_namespace_dir"]), a.get("lookup_directories") or [])
                 ns = nunavut.build_namespace_tree(types, str(a["root_namespace_dir"]), str(a["out_dir"]), lctx)
-                kw = {k: pathlib.Path(a[k]) for k in ("templates_dir", "support_templates_dir") if k in a}
+                kw = {k: ([pathlib.Path(x) for x in a[k]] if isinstance(a[k], list) else pathlib.Path(a[k]))
+                      for k in ("templates_dir", "support_templates_dir") if k in a}
                 from nunavut.jinja import DSDLCodeGenerator, SupportGenerator
                 gen, sup = DSDLCodeGenerator(ns, **kw), SupportGenerator(ns, **kw)
                 omit, audit = a.get("omit_serialization_support", True), a.get("embed_auditing_info", False)
@@ -472,10 +473,12 @@ CLI_OPTION_SETS = {
 }
 API_OPTION_SETS = {
     "c": [{"omit_serialization_support": False}, {"omit_serialization_support": True},
-          {"omit_serialization_support": False, "language_options": {"target_endianness": "big"}}],
+          {"omit_serialization_support": False, "language_options": {"target_endianness": "big"}},
+          {"omit_serialization_support": False, "templates_dir": ["{ovr}", "{btpl}"]}],
     "cpp": [{"omit_serialization_support": False}, {"omit_serialization_support": False, "language_options": {"std": "c++17"}},
             {"omit_serialization_support": False, "templates_dir": "{btpl}", "support_templates_dir": "{bsup}"}],
-    "py": [{"omit_serialization_support": False}, {"omit_serialization_support": False, "templates_dir": "{tplg}"}],
+    "py": [{"omit_serialization_support": False}, {"omit_serialization_support": False, "templates_dir": "{tplg}"},
+           {"omit_serialization_support": False, "templates_dir": ["{ovr}", "{btpl}"]}],
     "html": [{"omit_serialization_support": True}, {"omit_serialization_support": True, "templates_dir": "{btpl}"}],
 }
 LANGS = ["c", "cpp", "py", "html"]
@@ -646,6 +649,19 @@ class Lab:
             shutil.copytree(src, dst, ignore=shutil.ignore_patterns("__pycache__", "*.pyc"))
         return dst
 
+    def override_copy(self, base, lang):
+        """a template directory with the SAME template names as the built-in copy, each with a marker line in front: listed BEFORE the copy it must win
+        for every name, whatever the order in which a set or a directory listing yields the two directories"""
+        dst = base / "ovr" / lang
+        if not dst.exists():
+            src = self.builtin_copy(base, "templates", lang)
+            dst.mkdir(parents=True)
+            cm = {"py": "# override", "html": "<!-- override -->"}.get(lang, "// override")
+            for f in sorted(src.glob("*.j2")):
+                text = f.read_text()
+                (dst / f.name).write_text((cm + " " + f.name + "\n" + text) if ("{% extends" not in text and "{%- extends" not in text) else text)
+        return dst
+
     def drop_copies(self, inputs):
         for loc in list(self.LOCS):
             p = self.copies.pop((inputs.id, loc), None)
@@ -690,7 +706,13 @@ class Lab:
                 argv.append(sp(self.top(base, "in") / inputs.root))
                 j["argv"] = argv
             else:
-                api = {k: (fill(v) if isinstance(v, str) else v) for k, v in api_kw.items()}
+                def fill_api(v):
+                    if isinstance(v, list):
+                        return [fill_api(x) for x in v]
+                    if v == "{ovr}":
+                        return sp(self.override_copy(base, opts.lang))
+                    return fill(v) if isinstance(v, str) else v
+                api = {k: fill_api(v) for k, v in api_kw.items()}
                 api.update(language_key=opts.lang, root_namespace_dir=sp(self.top(base, "in") / inputs.root), out_dir=sp(to), lookup_directories=lk,
                            include_experimental_languages=True, embed_auditing_info=bool(audit))
                 j["api"] = api
